@@ -1,0 +1,6 @@
+//go:build !verif
+
+package ledger
+
+// VerifPoint is a no-op unless built with the `verif` tag (see verif_hook_on.go).
+func VerifPoint(point string) {}
